@@ -58,6 +58,59 @@ class Src:
         return i
 
 
+class ReIter:
+    """A lazy RE-ITERABLE host object: __iter__ only (a fresh instrumented iterator each time),
+    no __next__, no __len__ - neither an iterator nor sized."""
+
+    def __init__(self, items=(), endless=True, cap=PULL_CAP):
+        self.items, self.endless, self.cap, self.iters = list(items), endless, cap, []
+
+    def __iter__(self):
+        it = Src(self.items, self.endless, self.cap)
+        self.iters.append(it)
+        return it
+
+    @property
+    def pulls(self):            # per iterator: each walk of the object is bounded separately
+        return max([it.pulls for it in self.iters] or [0])
+
+
+class SizedIter(ReIter):
+    """Sized and iterable, but no Sequence / Set / Mapping."""
+
+    def __init__(self, items=(), endless=False, cap=PULL_CAP):
+        ReIter.__init__(self, items, False, cap)
+
+    def __len__(self):
+        return len(self.items)
+
+
+def gen_source(items=(), endless=True, cap=PULL_CAP):
+    """A generator object over an instrumented source -> (generator, the source that counts)."""
+    inner = Src(items, endless, cap)
+
+    def g():
+        yield from inner
+    return g(), inner
+
+
+SOURCE_KINDS = ["iterator", "generator", "reiterable"]
+
+
+def make_source(kind, items=(), endless=True, cap=PULL_CAP):
+    """-> (object to hand to yaql, object whose .pulls counts)"""
+    if kind == "generator":
+        return gen_source(items, endless, cap)
+    if kind == "reiterable":
+        o = ReIter(items, endless, cap)
+        return o, o
+    if kind == "sized-iterable":
+        o = SizedIter(items, False, cap)
+        return o, o
+    o = Src(items, endless, cap)
+    return o, o
+
+
 class CountInt(int):
     """An int that notices being used as the repetition count of a str/tuple/list."""
     log = []
@@ -130,6 +183,7 @@ def lambda_corpus():
         ("first", lambda *a, **k: a[0] if a else 0),
         ("true", lambda *a, **k: True),
         ("endless", lambda *a, **k: Src()),
+        ("endless-reiterable", lambda *a, **k: ReIter()),
         ("pair", lambda *a, **k: (1, 2)),
     ]
 
@@ -217,11 +271,11 @@ def sweep_variants(fd, key, ctx, eng, max_variants):
     return out[:max_variants]
 
 
-def do_call(fd, key, assignment, mode, ctx, eng):
+def do_call(fd, key, assignment, mode, ctx, eng, srckind="iterator"):
     """Call exactly `fd` with the tested parameter `key` fed according to `mode`
     ('src': the endless source itself; 'lambda': a callable returning a fresh endless source)."""
     pos, kwonly = visible_params(fd)
-    src = Src() if mode == "src" else (lambda *a, **k: Src())
+    src = make_source(srckind)[0] if mode == "src" else (lambda *a, **k: make_source(srckind)[0])
     args, kwargs = [], {}
     gap = False
     for k, p in pos:
@@ -308,7 +362,7 @@ def run_sweep(task, emit):
         cid = "%s/%d" % (task["id"], vi)
         emit({"begin": cid})
         del Src.registry[:]
-        out, _ = guarded(lambda: do_call(fd, key, assignment, mode, ctx, eng))
+        out, _ = guarded(lambda: do_call(fd, key, assignment, mode, ctx, eng, task.get("srckind", "iterator")))
         pulls = max([s.pulls for s in Src.registry] or [0])
         rec = {"variant": {k: lab for k, (lab, _) in assignment.items()}, "outcome": out,
                "pulls": pulls, "sources": len(Src.registry)}
